@@ -350,6 +350,45 @@ def run_prepared(ctx, rng, world):
                     if got != want:
                         ctx.fail("C12:prepared.read_returns_other_data_than_issued", "blocks %#x+%d hold %r..., the %s payload held %r... when the command was issued (over %s, issue %d)"
                                  % (lba, tl, got[:12], kind, want[:12], transport, round_ + 1), wit)
+            # an inventory: one prepared READ CAPACITY(16) / READ CAPACITY(10) / INQUIRY object sent again and again while the unit
+            # grows (and its product string changes), the caller noting cmd.result after every decode - what was noted about an
+            # earlier answer is that answer
+            from pyscsi.pyscsi.scsi_cdb_inquiry import Inquiry
+            from pyscsi.pyscsi.scsi_cdb_readcapacity10 import ReadCapacity10
+            from pyscsi.pyscsi.scsi_cdb_readcapacity16 import ReadCapacity16
+
+            rc16 = ReadCapacity16(next(getattr(E.sbc, k) for k in E.sbc.keys if getattr(E.sbc, k).value == 0x9E), alloclen=32)
+            rc10 = ReadCapacity10(E.sbc.READ_CAPACITY_10)
+            inq = Inquiry(E.sbc.INQUIRY, alloclen=96)
+            noted = []
+            sizes = [1 << 20, (1 << 20) + 4096, 3 << 20, (1 << 32) + 17]
+            for gen_no, nb in enumerate(sizes):
+                tgt.nblocks = nb
+                tgt.product = b"GENERATION %-5d" % gen_no
+                for cmd, what in ((rc16, "rc16"), (rc10, "rc10"), (inq, "inq")):
+                    try:
+                        (dev if gen_no % 2 else s).execute(cmd)
+                        cmd.unmarshall()
+                    except Exception as e:  # noqa: BLE001
+                        ctx.fail("C12:prepared.command_rejected.%s" % type(e).__name__, "a prepared %s failed over %s: %s" % (what, transport, str(e)[:120]), wit0, exc=e)
+                        continue
+                    r = cmd.result
+                    if what == "inq":
+                        want_now = ("product", bytes(tgt.product))
+                        got_now = ("product", bytes(r.get("product_identification", b"")))
+                    else:
+                        want_now = (min(nb - 1, 0xFFFFFFFF) if what == "rc10" else nb - 1, bs)
+                        got_now = (r.get("returned_lba"), r.get("block_length"))
+                    ctx.count("prepared_inventory_answers")
+                    if got_now != want_now:
+                        ctx.fail("C12:prepared.inventory.%s_result" % what, "generation %d over %s: the prepared command reports %r, the unit has %r" % (gen_no, transport, got_now, want_now), wit0)
+                    noted.append((what, gen_no, r, want_now))
+            for what, gen_no, r, want in noted:
+                got = ("product", bytes(r.get("product_identification", b""))) if what == "inq" else (r.get("returned_lba"), r.get("block_length"))
+                if got != want:
+                    ctx.fail("C12:prepared.inventory.noted_result_changed", "what the caller noted from the %s of generation %d (%r) reads %r after the command was sent again (over %s)" % (what, gen_no, want, got, transport), wit0)
+                    break
+            tgt.nblocks = 1 << 20
             if tgt.anomalies:
                 ctx.fail("C12:prepared.target_anomaly", tgt.anomalies[0], wit0)
             for _c, win, *_r in prepared:
